@@ -173,7 +173,6 @@ uint64_t rot_left(uint64_t size, uint64_t a, uint64_t b)
 {
     uint64_t tmp;
 
-    b = b & 0x3F;
     b %= size;
     switch(size){
 	    case 8:
@@ -186,6 +185,8 @@ uint64_t rot_left(uint64_t size, uint64_t a, uint64_t b)
 		    tmp = (a << b) | ((a & 0xFFFFFFFF) >> (size - b));
 		    return tmp & 0xFFFFFFFF;
 	    case 64:
+		    if (b == 0)
+			    return a; /* a shift by 64 is undefined */
 		    tmp = (a << b) | ((a&0xFFFFFFFFFFFFFFFF) >> (size - b));
 		    return tmp & 0xFFFFFFFFFFFFFFFF;
 
@@ -211,7 +212,6 @@ uint64_t rot_right(uint64_t size, uint64_t a, uint64_t b)
 {
     uint64_t tmp;
 
-    b = b & 0x3F;
     b %= size;
     switch(size){
 	    case 8:
@@ -224,6 +224,8 @@ uint64_t rot_right(uint64_t size, uint64_t a, uint64_t b)
 		    tmp = ((a & 0xFFFFFFFF) >> b) | (a << (size - b));
 		    return tmp & 0xFFFFFFFF;
 	    case 64:
+		    if (b == 0)
+			    return a; /* a shift by 64 is undefined */
 		    tmp = ((a & 0xFFFFFFFFFFFFFFFF) >> b) | (a << (size - b));
 		    return tmp & 0xFFFFFFFFFFFFFFFF;
 
